@@ -202,3 +202,21 @@ Definition wf_query (q : query) : bool :=
   && wf_opt (fun o => wf_field (fst o)) (q_order q)
   && wf_opt (fun n => n <? 4294967296) (q_limit q)
   && wf_opt (fun n => n <? 4294967296) (q_offset q).
+
+(** ** through the public entry point
+    [parse_command] first tokenizes the whole input and rejects it if a character is not a token
+    character; the tokenizer honours backslash escapes in string literals, the peg grammars do
+    not, so both agree on where a literal ends only when strings contain no backslash. *)
+Definition no_backslash (s : bytes) : bool := forallb (fun c => negb (c =? 92)) s.
+Definition clean_val (v : jval) : bool := match v with VStr s => no_backslash s | _ => true end.
+Fixpoint clean_expr (e : expr) : bool :=
+  match e with
+  | ECmp _ _ v => clean_val v
+  | EIn _ vs => forallb clean_val vs
+  | EAnd x y | EOr x y => clean_expr x && clean_expr y
+  | ENot x => clean_expr x
+  end.
+Definition clean_query (q : query) : bool :=
+  wf_opt no_backslash (q_ctx q) && wf_opt no_backslash (q_since q) && wf_opt clean_expr (q_where q)
+  && wf_opt (forallb no_backslash) (q_return q).
+
